@@ -56,6 +56,7 @@ class Check:
         self.extra_coverage: Dict[str, object] = {}
         self.assumptions: List[str] = []
         self.explanation = ""
+        self.deferred_errors: List[str] = []
         self.quiet = quiet
         self.evidence_path = evidence_path if evidence_path is not None else os.path.join(VERIF, "evidence", f"{pid}.json")
         self.known_path = known_path or os.path.join(VERIF, "known_findings.json")
@@ -73,6 +74,11 @@ class Check:
 
     def note(self, text: str):
         self.notes.append(text)
+
+    def defer_error(self, text: str):
+        """An analysis error in one rule that must not hide violations already established by other rules:
+        reported as ANALYSIS-ERROR (exit 2) only when no new violation is reported."""
+        self.deferred_errors.append(text)
 
     # ------------------------------------------------------------------
     def _known(self) -> List[dict]:
@@ -125,6 +131,7 @@ class Check:
             rp = self._write_replay(new)
             print(f"VIOLATION property={self.pid} replay={rp}", file=out)
             return 1
+        floor_errors = self.deferred_errors + floor_errors
         if floor_errors:
             # no violation found, but a rule matched fewer sites than confirmed by hand: never a silent pass
             for e in floor_errors:
